@@ -106,6 +106,10 @@ def in_domain(case):
         chunks, plans = case["chunks"], case["plans"]
         if not 1 <= len(chunks) <= 6 or len(plans) != 2:
             return False
+        win = case.get("window")
+        if win is not None and not (isinstance(win, list) and len(win) == 3
+                                    and all(type(x) is int and 0 <= x <= 64 for x in win)):
+            return False
         for ch in chunks:
             if len(ch) > 6:
                 return False
@@ -269,7 +273,14 @@ def check_case(c, case, res=None):
 
     results = []
     for pi, plan in enumerate(plans):
-        status, r = wrgen.call(c.data.EoReader, data)
+        win = case.get("window")
+        if win:
+            # the chunks arrive as a window into a larger receive buffer (slice of a reader over it)
+            pre = bytes((0xFF if (i + win[2]) % 3 == 0 else 0x01) for i in range(win[0]))
+            suf = bytes((0xFF if (i + win[2]) % 2 == 0 else 0x02) for i in range(win[1]))
+            status, r = wrgen.call(lambda: c.data.EoReader(pre + data + suf).slice(len(pre), len(data)))
+        else:
+            status, r = wrgen.call(c.data.EoReader, data)
         if status == "exc":
             raise Violation("reader_constructed", case, "EoReader(data)", r)
         r.chunked_reading_mode = True
@@ -405,10 +416,34 @@ def _chunk():
 
 
 def case_strategy():
-    def build(cs):
-        return {"chunks": [c[0] for c in cs], "plans": [[c[1] for c in cs], [c[2] for c in cs]]}
+    def build(cs, win):
+        case = {"chunks": [c[0] for c in cs], "plans": [[c[1] for c in cs], [c[2] for c in cs]]}
+        if win[0] or win[1]:
+            case["window"] = list(win)
+        return case
 
-    return st.lists(_chunk(), min_size=1, max_size=6).map(build)
+    window = st.one_of(st.just((0, 0, 0)), st.tuples(st.integers(0, 6), st.integers(0, 6), st.integers(0, 5)))
+    return st.builds(build, st.lists(_chunk(), min_size=1, max_size=6), window)
+
+
+LONG_LENGTHS = (250, 253, 255, 256, 64006, 64007, 64008, 64009, 64010, 65535, 65536, 70001)
+
+
+def long_chunk_cases():
+    """Deterministic cases with one very long chunk (a packet-sized or larger string field) followed by
+    ordinary chunks: the framing must not depend on how long a chunk is."""
+    out = []
+    for L in LONG_LENGTHS:
+        for kind, text in (("fixed", "a" * L), ("efixed", "b" * (L - 1) + "c"), ("string", "x\u00ff" * (L // 2))):
+            chunks = [[["short", 300]], [["char", 7], [kind, text]], [["int", 123456], ["fixed", "tail"]], [["three", 9]]]
+            full = [[len(ch), []] for ch in chunks]
+            under = [[len(chunks[0]), [["int"]]], [1, []], [len(chunks[2]), [["short"], ["string"]]], [1, []]]
+            for win in (None, [3, 4, 1]):
+                case = {"chunks": chunks, "plans": [full, under]}
+                if win:
+                    case["window"] = win
+                out.append(case)
+    return out
 
 
 # -------------------------------------------------------------------------------------------
@@ -422,6 +457,17 @@ def run_task(task):
         res.evaluations += 1
         check_case(c, case, res)
 
+    if task.get("kind") == "long":
+        try:
+            for case in long_chunk_cases()[task["lo"]::task["step"]]:
+                res.evaluations += 1
+                res.labels["long_chunk_cases"] += 1
+                check_case(c, case, None)
+                res.nontrivial(["long", [len(f[1]) if isinstance(f[1], str) else f[1] for ch in case["chunks"] for f in ch], case.get("window")])
+        except Violation as v:
+            # keep the replay small: the case is regenerated from its index on replay
+            res.violation(v)
+        return res
     if hyp.campaign(case_strategy(), oracle, task["n"], task["seed"], res) is not None:
         wrgen.minimise_last_violation(res, in_domain, lambda case: check_case(c, case))
     return res
@@ -430,7 +476,8 @@ def run_task(task):
 def plan(tier, seed):
     total = 20000 if tier == "quick" else 400000
     workers = 16
-    return [{"n": total // workers, "seed": seed * 1000 + w} for w in range(workers)]
+    return [{"n": total // workers, "seed": seed * 1000 + w} for w in range(workers)] + \
+        [{"kind": "long", "lo": i, "step": 8} for i in range(8)]
 
 
 def finalize(merged, tier):
